@@ -122,6 +122,7 @@ struct BucketingProbe : pgm::BucketingPGMIndex<K, Eps, T, Bits> {
     const auto &segs() const { return this->segments; }
     const auto &top() const { return this->top_level; }
     K stepv() const { return this->step; }
+    static constexpr bool pow2() { return Base::pow_two_top_level; }
     K firstk() const { return this->first_key; }
     K lastk() const { return this->last_key; }
     size_t seg_index(const K &key) const { return size_t(this->segment_for_key(key) - this->segments.begin()); }
@@ -148,6 +149,22 @@ void run_bucketing(const VPlan &pl) {
     std::string res = outcome([&] { idx.reset(new P(data.begin(), data.end())); });
     pgm::verif::forced_parallelism = 0;
     auto queries = make_queries<K>(data, rng, n <= 40 ? n : 40, std::abs(pl.chunks));
+    if (idx) {
+        // the keys on and next to bucket boundaries (first_key + i * bucket width): the first and the last key of a bucket, and a
+        // segment that starts exactly on a boundary, are where the bucket arithmetic and the table fill have to agree
+        Wide<K> fk = (Wide<K>) idx->firstk(), lk = (Wide<K>) idx->lastk();
+        Wide<K> width = P::pow2() ? (Wide<K>) 1 << (sizeof(K) * CHAR_BIT - BIT_WIDTH(T) + 1) : (Wide<K>) idx->stepv();
+        if (width > 0)
+            for (size_t b = 1, used = 0; b <= T + 1 && used < 48; ++b) {
+                Wide<K> v = fk + (Wide<K>) b * width;
+                if (v > lk + 1) break;
+                if (T > 48 && rng.below(T) >= 48 && b > 2 && v + width <= lk) continue;      // a sample of the inner boundaries
+                ++used;
+                for (long long d = -1; d <= 1; ++d) { Wide<K> q = v + d; if (q >= (Wide<K>) std::numeric_limits<K>::lowest() && q < (Wide<K>) std::numeric_limits<K>::max()) queries.push_back(K(q)); }
+            }
+        std::sort(queries.begin(), queries.end());
+        queries.erase(std::unique(queries.begin(), queries.end()), queries.end());
+    }
     std::vector<K> extra;
     if (idx) for (auto &s : idx->segs()) extra.push_back(s.key);
     auto nm = make_norm<K>(data, queries, wide, extra);
